@@ -151,6 +151,7 @@ pub fn judge(c: &Case, rec: &mut Rec) -> Verdict {
             sched: sched_of(&r),
             log_all: false,
             extra_env: vec![("XV_DRIVER".into(), if c.parblock { "parblock".into() } else { "parfile".into() })],
+            stdout_to: None,
         };
         let o = Sup::run(spec);
         if o.setup_error.is_some() {
